@@ -1,5 +1,5 @@
 (* Extraction of the IR engine: value/degree propagation mirror. *)
 Require Extraction.
 Require Import ExtrOcamlBasic.
-Require Import Model.Base Model.Ir Model.Propagate Model.Justify Model.SsaCheck Model.DegJustify Model.Ssa Model.ConstCond Model.SsaErase Model.Clean Model.DegWf Model.SsaPre Model.DegGraph.
-Separate Extraction Base.base_roots Base.outcome Ir.cfg Ir.set_blocks Propagate.propagate Justify.vjust_cfg Justify.ldefs_unique_cfg SsaCheck.ssa_check DegJustify.djust_cfg Ssa.into_ssa ConstCond.cc_findings SsaErase.erase_eqb SsaErase.mixed_keys_ok Clean.clean_cfg DegWf.deg_wf SsaPre.pre_ssa_ok SsaPre.children_coverb SsaPre.ssa_dyn_pre_ok SsaPre.children_treeb DegGraph.graph_consistent DegGraph.idom_is_dominator_table SsaCheck.unversioned_reads_ok.
+Require Import Model.Base Model.Ir Model.Propagate Model.Justify Model.SsaCheck Model.DegJustify Model.Ssa Model.ConstCond Model.SsaErase Model.Clean Model.DegWf Model.SsaPre Model.DegGraph Model.DegJustifyLe.
+Separate Extraction Base.base_roots Base.outcome Ir.cfg Ir.set_blocks Propagate.propagate Justify.vjust_cfg Justify.ldefs_unique_cfg SsaCheck.ssa_check DegJustify.djust_cfg Ssa.into_ssa ConstCond.cc_findings SsaErase.erase_eqb SsaErase.mixed_keys_ok Clean.clean_cfg DegWf.deg_wf SsaPre.pre_ssa_ok SsaPre.children_coverb SsaPre.ssa_dyn_pre_ok SsaPre.children_treeb DegGraph.graph_consistent DegGraph.idom_is_dominator_table DegGraph.single_assignment_b DegGraph.forward_b SsaCheck.unversioned_reads_ok DegJustifyLe.djust_cfg_le.
